@@ -15,6 +15,7 @@ import (
 	"io"
 	"math"
 	"math/rand"
+	"sort"
 	"strings"
 
 	"github.com/EliCDavis/polyform/formats/obj"
@@ -784,6 +785,59 @@ func useMesh(r *rand.Rand, m modeling.Mesh, earlier *observed) (desc string, ver
 	return strings.Join(done, ", "), vertexOnly
 }
 
+// outOfDomain returns a call of p's kind (or, half of the time, of another kind) with at least one
+// inadmissible parameter. Counts stay tiny so that nothing large is allocated.
+func outOfDomain(r *rand.Rand, p prim) (prim, string) {
+	q := p
+	if r.Intn(2) == 0 {
+		all := []string{"sphere", "sphere-unwelded", "hemisphere", "cylinder", "cube-welded", "cube-quads"}
+		q = fill(r, combo{kind: all[r.Intn(len(all))], rows: 2 + r.Intn(6), cols: 3 + r.Intn(6), side: 3 + r.Intn(8), uv: []int{uvNone, uvDefault, uvRandom}[r.Intn(3)]})
+	}
+	bad := func(v float64) (float64, string) {
+		switch r.Intn(6) {
+		case 0, 1, 2:
+			return -v, "negative dimension"
+		case 3:
+			return 0, "zero dimension"
+		case 4:
+			return math.NaN(), "NaN dimension"
+		default:
+			return math.Inf(1 - 2*r.Intn(2)), "infinite dimension"
+		}
+	}
+	var dimsOf []*float64
+	var counts []*int
+	switch q.Kind {
+	case "cube-welded", "cube-quads":
+		dimsOf = []*float64{&q.W, &q.H, &q.D}
+	case "cylinder":
+		dimsOf, counts = []*float64{&q.R, &q.H}, []*int{&q.Sides}
+	default:
+		dimsOf, counts = []*float64{&q.R}, []*int{&q.Rows, &q.Cols}
+	}
+	what := map[string]bool{}
+	if len(counts) > 0 && r.Intn(3) == 0 {
+		*counts[r.Intn(len(counts))] = []int{-1, 0, 1, 2}[r.Intn(4)]
+		what["count below the minimum"] = true
+	}
+	if len(what) == 0 || r.Intn(3) == 0 {
+		k := r.Intn(len(dimsOf))
+		for j, d := range dimsOf {
+			if j == k || r.Intn(2) == 0 {
+				var w string
+				*d, w = bad(*d)
+				what[w] = true
+			}
+		}
+	}
+	var names []string
+	for w := range what {
+		names = append(names, w)
+	}
+	sort.Strings(names)
+	return q, strings.Join(names, "+")
+}
+
 // sequenceCase makes the CALL ORDER a dimension: 2-4 primitives are built one after the other in one
 // process and every one of them is judged. Patterns: the same kind at two different resolutions with
 // equal (rows-1)*columns (both orders, optionally returning to the first), different kinds interleaved,
@@ -856,7 +910,25 @@ func sequenceCase(c *run.Ctx) run.Result {
 		}
 	}
 	useAll := pattern != 0 || r.Intn(2) == 0
+	// Round 7 (C18-L): calls OUTSIDE the property's domain (negative, zero, non-finite dimensions; counts
+	// below the minimum) are legal Go and happen in real programs (mirrored boxes, sliders at 0). Their
+	// results are never judged, but they must not spoil what the constructors hand out afterwards. Own
+	// PRNG so that the admissible part of every case is what it was before this was added.
+	r2 := rand.New(rand.NewSource(int64(run.Mix(c.Seed, 0x0D0A18, uint64(c.Case)))))
+	hostile := r2.Intn(3) == 0
 	for i, p := range seq {
+		if hostile && r2.Intn(3) != 0 {
+			q, what := outOfDomain(r2, p)
+			desc := "out-of-domain call (result not judged): " + q.String()
+			if pan := run.Try(func() { _ = build(q) }); pan != nil {
+				desc += " (panicked)"
+				res.Count("out_of_domain_calls_that_panicked", 1)
+			}
+			calls = append(calls, desc)
+			res.Count("out_of_domain_calls_before_a_judged_build", 1)
+			res.SetAdd("out_of_domain_kinds", q.Kind+": "+what)
+			recheck(desc)
+		}
 		ob := check(c, &res, p)
 		calls = append(calls, p.String())
 		recheck(p.String())
@@ -923,7 +995,7 @@ func Spec() *run.Spec {
 	return &run.Spec{
 		ID: "C18", Level: "exploration",
 		Rule: "grid: every (kind, rows 2..12 x columns 3..16 | sides 3..24 | cube variant, UV option) combination, each repetition with fresh dimensions drawn over 1e-9..1e9 (common scale with ratios <= 1e3, independent log-uniform dimensions with ratio <= 1e12, named extreme aspect ratios such as 1x1x1e-7 and 1e6x1e-6x1, small integers); " +
-			"large: counts sampled log-uniformly up to 200; sequence: 2-4 constructor calls in one process with USES of the primitives in between (Append onto a vertex-only mesh / EmptyMesh / another primitive and vice versa, translate-scale-rotate, SetMaterial, Transform(unweld, flip), OBJ/PLY/STL writers) followed by a rebuild of the same kind, each build judged and every earlier mesh of the case re-read (fingerprint of positions, normals, indices) after each later call and at the end (equal (rows-1)*columns pairs in both orders, kinds interleaved, identical calls repeated, unrelated resolutions); refine: doubling sequences of one primitive up to a count of 256. A case is non-trivial when the constructor returned a mesh of >= 4 faces " +
+			"large: counts sampled log-uniformly up to 200; sequence: 2-4 constructor calls in one process with USES of the primitives in between (Append onto a vertex-only mesh / EmptyMesh / another primitive and vice versa, translate-scale-rotate, SetMaterial, Transform(unweld, flip), OBJ/PLY/STL writers) followed by a rebuild of the same kind, in a third of the sequences also constructor calls with inadmissible parameters (negative, zero, NaN, infinite dimensions; counts below the minimum) whose results are not judged, each admissible build judged and every earlier mesh of the case re-read (fingerprint of positions, normals, indices) after each later call and at the end (equal (rows-1)*columns pairs in both orders, kinds interleaved, identical calls repeated, unrelated resolutions); refine: doubling sequences of one primitive up to a count of 256. A case is non-trivial when the constructor returned a mesh of >= 4 faces " +
 			"(refine: >= 4 steps); distinctness = kind + counts (bucketed by 25 in `large`) + UV option class.",
 		Assumptions: []string{
 			"admissible parameters: radius/height/width/depth > 0, rows >= 2, columns >= 3 (the constructors panic below that), cylinder sides >= 3 (Cylinder accepts 1 and 2 without complaint but a 1- or 2-gon prism is not a solid), NoTop/NoBottom false (capped cylinder)",
@@ -934,7 +1006,7 @@ func Spec() *run.Spec {
 		},
 		MinNontrivial: map[string]int{"quick": 750, "thorough": 800},
 		MinObserved: map[string]int64{"kinds": 6, "meshes_with_normals_checked": 300, "refinement_steps": 100, "meshes_with_a_count_of_150_or_more": 5, "uv_options": 10, "uv_masks": 140,
-			"call_sequences": 300, "primitives_built_after_an_earlier_instance_was_used": 500, "primitives_built_after_an_earlier_instance_was_appended_onto_a_vertex_only_mesh": 200, "uses_between_builds": 7, "earlier_meshes_reread_after_a_later_call": 1000, "consecutive_calls_with_equal_rows_minus_1_times_columns": 100, "consecutive_identical_calls": 100, "consecutive_calls_of_different_kinds": 100,
+			"call_sequences": 300, "out_of_domain_calls_before_a_judged_build": 150, "out_of_domain_kinds": 12, "primitives_built_after_an_earlier_instance_was_used": 500, "primitives_built_after_an_earlier_instance_was_appended_onto_a_vertex_only_mesh": 200, "uses_between_builds": 7, "earlier_meshes_reread_after_a_later_call": 1000, "consecutive_calls_with_equal_rows_minus_1_times_columns": 100, "consecutive_identical_calls": 100, "consecutive_calls_of_different_kinds": 100,
 			"size_decades": 16, "meshes_with_a_dimension_below_2e-6": 200, "meshes_with_a_dimension_above_1e6": 200, "meshes_with_aspect_ratio_of_1e6_or_more": 50},
 		Phases: []run.Phase{
 			{Name: "grid", Cases: func(t string) int {
